@@ -27,6 +27,7 @@ from ..engine.worlds import World, explore
 
 MOD = "dagrt.codegen.dag_ast"
 OTHER = ("other",)
+UNREAD = ("other", "unread")     # computed from a condition by a function that is not read
 NULL = ("null",)
 
 
@@ -377,6 +378,14 @@ class Handler:
                 and not any(isinstance(a, ast.Starred) for a in e.args):
             return self._inline(callee, e.args, w)
         # unknown call: evaluate nothing, know nothing
+        try:
+            vals = [v for a in e.args if not isinstance(a, ast.Starred) for v, _ in self.ev(a, w)]
+        except AnalysisError:
+            raise
+        except Exception:
+            vals = []
+        if any(v[0] == "cond" or v == UNREAD for v in vals):
+            return [(UNREAD, w)]
         return [(OTHER, w)]
 
     def _resolve_helper(self, e):
@@ -420,6 +429,8 @@ class Handler:
                                 for k, x in w_out.items():
                                     if isinstance(k, str) and k.startswith("@"):
                                         merged = merged.set(k, x)
+                                if v == OTHER and any(a[0] == "cond" or a == UNREAD for a in vals):
+                                    v = UNREAD      # made from a condition in a way that is not read
                                 outs.append((v, merged))
             finally:
                 self.depth -= 1
@@ -513,6 +524,9 @@ class Handler:
                                     f"kept by the mapper")
         outs = []
         for v, w2 in self.ev(e, w):
+            if v == UNREAD:
+                raise AnalysisError(f"{self.f.qualname}: the test {norm(e)[:50]} asks a function that is "
+                                    "not read about the node's condition")
             t = self.truth(v)
             if t is None:
                 outs.extend([(True, w2), (False, w2)])
@@ -680,6 +694,10 @@ class Handler:
                         out += self.den(slots.get(s, OTHER), guards, w)
                         continue
                     else:
+                        if c == UNREAD:
+                            raise AnalysisError(
+                                f"{self.f.qualname}: the condition of a rebuilt {cls} is computed from the "
+                                "node's condition by a function that is not read")
                         g = ("?", pol)
                     out += self.den(slots.get(s, OTHER), guards + (g,), w)
                 return out
@@ -779,6 +797,16 @@ class Handler:
 def analyse(P, f, cls_handled, single, listy, slots_of, top=False, want_nullfree=True):
     """Returns (findings [(node, text)], n_returns, n_worlds, kinds of the results)."""
     h = Handler(P, f, cls_handled, single, listy, slots_of, top=top)
+    for wl in ast.walk(f.node):
+        # a work list: a loop that runs until a list is empty and puts more into the list
+        # as it goes (children of children spliced in).  The abstract lists of this analysis
+        # have one origin; this form is not decided.
+        if isinstance(wl, ast.While) and isinstance(wl.test, ast.Name) and any(
+                isinstance(c_, ast.Call) and isinstance(c_.func, ast.Attribute)
+                and c_.func.attr in ("extend", "append", "insert", "appendleft", "extendleft")
+                and dotted(c_.func.value) == wl.test.id for c_ in ast.walk(wl)):
+            raise AnalysisError(f"{f.qualname}: the children are walked through a work list "
+                                f"('{wl.test.id}') that grows inside the loop; not decided")
     g = CFG(f.node)
     ins = explore(g, h.init_worlds(), h.exec_stmt, h.test, h.bind_for)
     findings = list(h.bad)
